@@ -450,20 +450,44 @@ Proof.
     split; [reflexivity|]. split; [|split; fields].
     intros l L N2'. destruct l as [[m| |]|q]; cbn [loc_ok gp] in L; try tauto; rd; reflexivity.
 Qed.
-(* invoke: add the tag offset to the code pointer and branch there *)
+(* invoke: add the tag offset to the code pointer and branch there.  The offset is an ADD immediate when it has
+   12 bits, else it is synthesised in TEMP2 (repair of the finding "tag dispatch immediate"): [a64_add_offset_ok] *)
+Theorem a64_add_offset_ok s n i a :
+  gp (X n) -> n <> 3%N -> xget s n = Some a -> (add_imm_fits i = false -> in64 i) ->
+  exists s', run_straight im (add_offset (X n) i) s = MOk s' /\ xget s' n = Some (wrap (a + i)) /\
+             (forall m, m <> n -> m <> 3%N -> xget s' m = xget s m) /\
+             spv s' = spv s /\ heap s' = heap s /\ stack s' = stack s /\ out s' = out s.
+Proof.
+  intros G N3 A IV. unfold add_offset. destruct (add_imm_fits i) eqn:FI.
+  - cbn [run_straight step]. unfold arith_imm, need. cbn [rget]. rewrite A.
+    eexists; split; [reflexivity|]. cbn [rset]. split; [apply xget_xset_same|].
+    split; [intros m Hm _; apply xget_xset_other; congruence|repeat split].
+  - destruct (a64_imm_code_ok im 3 i s (IV eq_refl)) as (s1 & R & V & (O & Hsp & Hh & Hst & Hf & Ho & _)).
+    consts. rewrite run_straight_app, R. cbn [run_straight step]. unfold arith3, need. cbn [rget].
+    rewrite (O n N3), A, V.
+    eexists; split; [reflexivity|]. cbn [rset]. split; [apply xget_xset_same|].
+    split; [intros m Hm H3; rewrite xget_xset_other by congruence; apply O; exact H3|].
+    repeat split; assumption.
+Qed.
 Theorem a64_add_and_jump_ok s sp t i addr :
-  frame_ok s sp -> operand_ok t -> lget s sp t = Some addr ->
+  frame_ok s sp -> operand_ok t -> lget s sp t = Some addr -> (add_imm_fits i = false -> in64 i) ->
   exists s', run_straight im (removelast (a_add_and_jump t i)) s = MOk s' /\
              step im (last (a_add_and_jump t i) RET) s' = goto_addr im s' (wrap (addr + i)) /\
              heap s' = heap s /\ out s' = out s.
 Proof.
-  intros F (T & N1 & N2) A. assert (SP : sp_ok sp) by apply F. consts.
-  destruct t as [[tn| |]|p]; cbn [lget loc_ok gp a_add_and_jump removelast last run_straight] in *; try tauto; consts.
-  - cbn [step]. unfold arith_imm, need. cbn [rget] in *. rewrite A.
-    eexists; split; [reflexivity|]. cbn [rset]. rewrite xget_xset_same. split; [reflexivity|split; reflexivity].
-  - rewrite (step_LDR_slot im s sp F) by exact T. cbn [step]. unfold arith_imm, need.
-    rewrite rget_rset_same by exact I. rewrite A.
-    eexists; split; [reflexivity|]. rewrite rget_rset_same by exact I. split; [reflexivity|split; fields].
+  intros F (T & N1 & N2) A IV. assert (SP : sp_ok sp) by apply F. consts.
+  destruct t as [[tn| |]|p]; cbn [lget loc_ok gp a_add_and_jump] in *; try tauto; consts.
+  - assert (N3 : tn <> 3%N) by congruence.
+    destruct (a64_add_offset_ok s tn i addr T N3 A IV) as (s' & R & V & _ & _ & Hh & _ & Ho).
+    rewrite removelast_last, last_last. exists s'. split; [exact R|]. cbn [step]. unfold need. cbn [rget]. rewrite V. auto.
+  - change ([LDR (X 2) SP (stack_offset p)] ++ add_offset (X 2) i ++ [BR (X 2)])
+      with (([LDR (X 2) SP (stack_offset p)] ++ add_offset (X 2) i) ++ [BR (X 2)]) at 1 2 || rewrite !app_assoc.
+    rewrite removelast_last, last_last, run_straight_app. cbn [run_straight].
+    rewrite (step_LDR_slot im s sp F) by exact T.
+    destruct (a64_add_offset_ok (rset s (X 2) (sget s sp p)) 2 i addr I ltac:(discriminate)) as (s' & R & V & _ & _ & Hh & _ & Ho);
+      [cbn [rset]; rewrite xget_xset_same; exact A|exact IV|].
+    exists s'. split; [exact R|]. cbn [step]. unfold need. cbn [rget]. rewrite V.
+    split; [reflexivity|]. rewrite Hh, Ho. split; fields.
 Qed.
 (* switch: ADR TEMP, table; ADD TEMP, TEMP, tag; BR TEMP - also when the tag is spilled (the case
    repaired by 3781c3f: the tag must not be loaded into TEMP) *)
